@@ -4,7 +4,10 @@ go 1.25.0
 
 require (
 	github.com/corazawaf/coraza/v3 v3.0.0
+	github.com/kaptinlin/jsonschema v0.4.6
+	github.com/petar-dambovaliev/aho-corasick v0.0.0-20250424160509-463d218d4745
 	github.com/tidwall/gjson v1.18.0
+	rsc.io/binaryregexp v0.2.0
 )
 
 require (
@@ -14,8 +17,6 @@ require (
 	github.com/gotnospirit/makeplural v0.0.0-20180622080156-a5f48d94d976 // indirect
 	github.com/gotnospirit/messageformat v0.0.0-20221001023931-dfe49f1eb092 // indirect
 	github.com/kaptinlin/go-i18n v0.1.4 // indirect
-	github.com/kaptinlin/jsonschema v0.4.6 // indirect
-	github.com/petar-dambovaliev/aho-corasick v0.0.0-20250424160509-463d218d4745 // indirect
 	github.com/tidwall/match v1.1.1 // indirect
 	github.com/tidwall/pretty v1.2.1 // indirect
 	github.com/valllabh/ocsf-schema-golang v1.0.3 // indirect
@@ -23,7 +24,6 @@ require (
 	golang.org/x/sync v0.21.0 // indirect
 	golang.org/x/text v0.39.0 // indirect
 	google.golang.org/protobuf v1.36.11 // indirect
-	rsc.io/binaryregexp v0.2.0 // indirect
 )
 
 replace github.com/corazawaf/coraza/v3 => /repo
